@@ -136,6 +136,7 @@ def run(ck, fb):
     r17f(ck, fb)
     r17g(ck, fb)
     r17j(ck, fb)
+    ck.borrow('rules.c01', {'R01w': 'R17k'}, 'a session that expired stays expired across a restart or a snapshot install: the console refuses its token')
 
 
 def _run0(ck, fb):
